@@ -3,16 +3,23 @@
    fetch it asks for.  Part of C03 / C11 (trust-on-first-use is on unless the user turns it off: no other option disables it)
    and C16 (the redirect bound and the follow switch reach the client as given).                                            *)
 EXTENDS Naturals, TLC
-CONSTANT DevVerifyDisablesTofu      \* deviation: --verify-ssl switches trust-on-first-use off
+CONSTANTS DevVerifyDisablesTofu,     \* deviation: --verify-ssl switches trust-on-first-use off
+          DevSchemePrefixed          \* deviation: "gemini://" is put in front of any URL that does not start with exactly that
+UrlKinds == {"lower", "upperScheme", "mixedScheme", "upperHost", "port", "defaultPort", "v6", "noPath", "query", "reserved"}
 Redirects == {"0", "1", "5", "7"}         \* --max-redirects, as written on the command line ("5" is the default)
 VARIABLES trustFlag,      \* "default" | "--trust" | "--no-trust"
           verifyFlag,     \* "default" | "--verify-ssl" | "--no-verify-ssl"
           maxFlag,        \* "default" or a number
-          noRedirects, timeoutFlag, out
-vars == <<trustFlag, verifyFlag, maxFlag, noRedirects, timeoutFlag, out>>
+          noRedirects, timeoutFlag,
+          urlKind,        \* how the URL on the command line is spelled (all of these the library accepts)
+          out
+vars == <<trustFlag, verifyFlag, maxFlag, noRedirects, timeoutFlag, urlKind, out>>
 Pending == [k |-> "pending"]
 Init == /\ trustFlag \in {"default", "--trust", "--no-trust"} /\ verifyFlag \in {"default", "--verify-ssl", "--no-verify-ssl"}
         /\ maxFlag \in {"default"} \cup Redirects /\ noRedirects \in BOOLEAN /\ timeoutFlag \in {"default", "7.5"}
+        /\ urlKind \in UrlKinds
+        \* the spelling of the URL and the options do not interact: spellings are swept with default options
+        /\ (urlKind # "lower" => (trustFlag = "default" /\ verifyFlag = "default" /\ maxFlag = "default" /\ ~noRedirects /\ timeoutFlag = "default"))
         /\ out = Pending
 Eval == /\ out = Pending
         /\ out' = [k |-> "called",
@@ -20,13 +27,17 @@ Eval == /\ out = Pending
                    verify |-> verifyFlag = "--verify-ssl",
                    max |-> IF maxFlag = "default" THEN "5" ELSE maxFlag,
                    follow |-> ~noRedirects,
+                   \* the URL the client is asked to fetch denotes what the user typed
+                   url |-> IF DevSchemePrefixed /\ urlKind \in {"upperScheme", "mixedScheme"} THEN "other" ELSE "same",
                    timeout |-> IF timeoutFlag = "default" THEN "30.0" ELSE timeoutFlag]
-        /\ UNCHANGED <<trustFlag, verifyFlag, maxFlag, noRedirects, timeoutFlag>>
+        /\ UNCHANGED <<trustFlag, verifyFlag, maxFlag, noRedirects, timeoutFlag, urlKind>>
 Spec == Init /\ [][Eval]_vars
 Done == out.k = "called"
 \* C03 / C11: the pin check is in force unless --no-trust was given - whatever else is on the command line
 TofuAsRequested == Done => (out.tofu = (trustFlag # "--no-trust"))
 \* C16: the bound and the switch are the user's
 RedirectsAsRequested == Done => (out.max = (IF maxFlag = "default" THEN "5" ELSE maxFlag) /\ out.follow = ~noRedirects)
+\* C19: the command hands the library the URL it was given (same host, port, path and query), however it is spelled
+UrlAsGiven == Done => out.url = "same"
 VerifyAsRequested == Done => (out.verify = (verifyFlag = "--verify-ssl"))
 =============================================================================
